@@ -108,7 +108,7 @@ def scenario(job):
         out["jobs"] = post["jobs"]
         # model of the interrupted run: how many submissions were accepted AND recorded
         line_full, _, _ = proj.model("run", pre, mklist([]), "-")
-        out["model_lines"] = {}
+        out["model_lines"] = {"full": line_full}
         for kk in range(0, len(accepted) + 1):
             l, _, _ = proj.model("run", pre, mklist([]), str(kk))
             out["model_lines"][kk] = l
@@ -166,7 +166,7 @@ def evaluate(chk, results):
         if r.get("error") or "model_lines" not in r:
             continue
         for kk, l in r["model_lines"].items():
-            lines.append(l); idx.append((ri, "m", kk))
+            lines.append(l); idx.append((ri, "m", str(kk)))
         lines.append(r["next"]["line"]); idx.append((ri, "next", 0))
     outs = common.run_driver_sharded(lines, shards=12)
     mo = {}
@@ -198,29 +198,41 @@ def evaluate(chk, results):
             viol("state-unreadable", "after the interruption the next gwf invocation does not start (state file unreadable?)",
                  {"status_exit": r.get("status_code"), "status_err": r.get("status_err"), "unreadable": r.get("unreadable")})
             continue
-        # (b) recorded ids: the disk must equal the model's state after k' recorded submissions, where
-        #     k' = #accepted, or #accepted-1 if the interruption fell into the accept→record window
-        cands = [len(acc)]
+        # (b) recorded ids (C09.tracked_at / no_forgotten_job): the tracked map on disk is the earlier map updated with
+        #     exactly the accepted (target, id) pairs — all of them, or all but the last one if the interruption fell
+        #     into the accept→record window.  Which targets may be submitted at all comes from the model's full plan;
+        #     the ORDER among independent targets is the implementation's (the properties do not fix it).
+        full = H.parse_model(mo.get((ri, "m", "full"), "ok"))
+        if "_err" in full:
+            continue
+        planned = [common.unhx(e.split(":")[0]) for e in full.get("subs", "").split(";") if e]
+        names_acc = [n for n, _ in acc]
+        if sorted(set(names_acc)) != sorted(names_acc) or not set(names_acc) <= set(planned):
+            viol("unplanned-submission", "the interrupted run submitted %r; the plan is %r (each at most once)" % (names_acc, planned))
+            continue
+        cands = [acc]
         if fkind == "kill_parent_after" or (crash and crash.split(":")[0] in ("before", "midwrite")):
-            cands.append(max(0, len(acc) - 1))
+            cands.append(acc[:-1])
+        specs = {t["name"]: t["spec"] for t in r["info"]["targets"]}
+        killed = (fkind in ("kill_parent", "kill_parent_after")) or crash
         ok_tracked = False
-        for kk in cands:
-            m = H.parse_model(mo.get((ri, "m", kk), "ok"))
-            if "_err" in m:
-                continue
-            if H.unkv(m.get("tracked", "")) == r["tracked"]:
+        for cand in cands:
+            exp_tracked = dict(r["pre_tracked"])
+            exp_tracked.update({n: i for n, i in cand})
+            if exp_tracked == r["tracked"]:
                 ok_tracked = True
-                mh = H.unkv(m.get("hashes", ""))
-                killed = (fkind in ("kill_parent", "kill_parent_after")) or crash
-                # (c) hashes: a kill leaves them as they were (or, if the final save was reached, as the model's); an exception saves the accepted ones
-                if r["hashing"] and r["hashes"] != mh and r["hashes"] != r["pre_hashes"]:
-                    viol("hashes", "spec hashes on disk are neither the old ones nor those of the accepted submissions", {"hashes": r["hashes"], "model": mh})
-                if r["hashing"] and not killed and r["hashes"] != mh:
-                    viol("hashes", "after a failing scheduler command the saved spec hashes are not exactly those of the accepted submissions", {"hashes": r["hashes"], "model": mh})
+                exp_h = dict(r["pre_hashes"])
+                exp_h.update({n: specs[n] for n, _ in cand})
+                # (c) hashes: a kill leaves them as they were (or, if the final save was reached, those of the accepted
+                #     submissions); an exception saves exactly those of the accepted ones
+                if r["hashing"] and r["hashes"] != exp_h and r["hashes"] != r["pre_hashes"]:
+                    viol("hashes", "spec hashes on disk are neither the old ones nor those of the accepted submissions", {"hashes": r["hashes"], "expected": exp_h})
+                if r["hashing"] and not killed and r["hashes"] != exp_h:
+                    viol("hashes", "after a failing scheduler command the saved spec hashes are not exactly those of the accepted submissions", {"hashes": r["hashes"], "expected": exp_h})
                 break
-        if not ok_tracked and "_err" not in H.parse_model(mo.get((ri, "m", len(acc)), "ok")):
+        if not ok_tracked:
             viol("forgotten-job", "the tracked-jobs file does not record exactly the jobs the scheduler accepted before the interruption",
-                 {"tracked_on_disk": r["tracked"], "pre_tracked": r["pre_tracked"], "model_after_all_accepted": H.unkv(H.parse_model(mo[(ri, "m", len(acc))]).get("tracked", ""))})
+                 {"tracked_on_disk": r["tracked"], "pre_tracked": r["pre_tracked"], "accepted": acc})
             continue
         # (d) the next run
         nxt = r["next"]
